@@ -16,6 +16,9 @@ import signal
 import sys
 import time
 import traceback
+import warnings
+
+warnings.filterwarnings('ignore', message='.*multi-threaded, use of fork.*')
 
 NWORKERS = int(os.environ.get("VERIF_WORKERS", "0")) or min(16, os.cpu_count() or 4)
 
